@@ -486,6 +486,34 @@ def run(chk):
            'Python has %d raise/assert sites, C++ %d throw sites: one parser '
            'accepts what the other rejects' % (pr, cr), nontrivial=pr > 0)
 
+  # ---- R7 deterministic order of the Python parser ------------------------------
+  chk.rule('C06-R7', 'the Python parser emits rules in an order that does not '
+           'depend on set iteration (the C++ port uses ordered containers): no '
+           'set order reaches a list, string or dict order in parse.py',
+           min_instances=3)
+  from sa import setorder
+  an = setorder.Analysis(repo, [repo.mod('parser_py/parse.py')])
+  col = setorder.Collector(an, [])
+  sites = col.run()
+  seen = set()
+  for st in sites:
+    key = (st.fi.fq, st.source, st.kind, st.verdict)
+    if key in seen:
+      continue
+    seen.add(key)
+    if st.verdict == 'leak':
+      # returned to callers outside parse.py is judged by C13; inside parse.py
+      # a leak changes the order of the parsed rules
+      if 'API surface' in st.reason:
+        continue
+      chk.ob('C06-R7', False, None, '%s %s' % (st.kind, st.source),
+             st.reason + ' || ' + ' -> '.join(st.chain[-4:]) +
+             ' : the order of the rules the Python parser returns depends on the '
+             'hash seed, the C++ parser keeps first-appearance order', fi=st.fi, node=st.node)
+    else:
+      chk.ob('C06-R7', True, None, '%s %s' % (st.kind, st.source), st.reason, fi=st.fi,
+             node=st.node, nontrivial=st.kind in ('for', 'comprehension'))
+
 
 def _utf8(s):
   try:
